@@ -233,5 +233,5 @@ def finish(res: Result):
     with open(os.path.join(ROOT, "evidence", f"{res.pid}.json"), "w") as f:
         json.dump(ev, f, indent=1)
     log(f"[{res.pid}] tier={res.tier} wall={ev['wall_s']}s violations={len(new)} known={ev['known_findings_matched']} "
-        f"coverage={ {k: v for k, v in cov.items() if k not in ('samples', 'rule')} }")
+        f"coverage={ {k: v for k, v in cov.items() if k not in ('samples', 'rule', 'per_job', 'explanation', 'families')} }")
     return 1 if new else 0
